@@ -170,6 +170,16 @@ def rnd_str_pair(rng):
     hi = rng.randrange(128, 256)       # one high-bit byte value per pair (printed forms of distinct operands stay distinct: C14's topic)
     x = rnd_str(rng, hi)
     r = rng.random()
+    if rng.random() < 0.12:
+        # a needle with a self-overlapping prefix inside a haystack with an overlapping false start ("aab" in "aaab", "ababc" in
+        # "abababc"): substring search that does not back up correctly after a partial match gets exactly these wrong
+        a, b, c = rng.choice([(97, 98, 99), (65, 97, 98), (45, 102, 32)])
+        unit = [a] * rng.choice([1, 2]) + ([b] if rng.random() < 0.5 else [])
+        needle = unit * rng.choice([1, 2]) + [c if rng.random() < 0.7 else b]
+        hay = rnd_str(rng, hi)[:3] + unit * rng.choice([1, 2, 3]) + needle + rnd_str(rng, hi)[:2]
+        if rng.random() < 0.3:
+            hay = [swapcase(v) if 65 <= v <= 122 and rng.random() < 0.5 else v for v in hay]
+        return (needle, hay) if rng.random() < 0.8 else (hay, needle)
     if r < 0.2:
         y = list(x)
     elif r < 0.4 and x:
